@@ -72,12 +72,18 @@ def main():
             m = re.search(r'(\d+) passed', tail)
             ok = ok and m and int(m.group(1)) == 2096 and not re.search(r'\b\d+ failed', tail)
         # re-diff against the current tree
-        # produce git-style paths
-        r = sh(['diff', '-ruN', '-x', '.hypothesis', '-x', '__pycache__', '-x', '*.orig', '-x', '*.rej', 'orig', 'repo'], cwd=scratch)
-        diff = r.stdout.replace('--- orig/', '--- a/').replace('+++ repo/', '+++ b/')
-        diff = re.sub(r'^diff -ruN (?:-x \S+ )*orig/(\S+) repo/(\S+)$', r'diff --git a/\1 b/\2', diff, flags=re.M)
-        diff = re.sub(r'^(--- a/\S+)\t.*$', r'\1', diff, flags=re.M)
-        diff = re.sub(r'^(\+\+\+ b/\S+)\t.*$', r'\1', diff, flags=re.M)
+        # re-diff against the current tree with git (handles CRLF files); paths rewritten to a/ b/
+        for junk in ('.hypothesis', '.benchmarks'):
+            shutil.rmtree(os.path.join(dst, junk), ignore_errors=True)
+            shutil.rmtree(os.path.join(orig, junk), ignore_errors=True)
+        for root, dirs, files in os.walk(dst):
+            for d in [d for d in dirs if d == '__pycache__']:
+                shutil.rmtree(os.path.join(root, d), ignore_errors=True)
+            for f in files:
+                if f.endswith(('.orig', '.rej')):
+                    os.remove(os.path.join(root, f))
+        r = subprocess.run(['git', 'diff', '--no-index', '--binary', 'orig', 'repo'], cwd=scratch, capture_output=True)
+        diff = r.stdout.replace(b'a/orig/', b'a/').replace(b'b/repo/', b'b/')
         fired = {}
         for c in checks:
             env2 = dict(os.environ, VERIF_REPO=dst, VERIF_NO_EVIDENCE='1')
@@ -94,7 +100,7 @@ def main():
         meta['missed_by'] = [c for c, rc in fired.items() if rc != 1]
         out = os.path.join(VERIF, 'seeded', a.name)
         os.makedirs(out, exist_ok=True)
-        with open(os.path.join(out, 'patch.diff'), 'w') as f:
+        with open(os.path.join(out, 'patch.diff'), 'wb') as f:
             f.write(diff)
         shutil.copy(a.demo, os.path.join(out, 'demo.py'))
         with open(os.path.join(out, 'meta.json'), 'w') as f:
